@@ -417,6 +417,12 @@ func c16RunTeardown(c *sim.Ctx) {
 			if err != nil {
 				continue
 			}
+			if byKey[s.SessionID] != nil {
+				// session identities come from crypto/rand, i.e. from the tape; a zeroed
+				// (shrunk) tape gives every session the same one: not a meaningful run
+				c.S.Probe("session-identity-collision")
+				return
+			}
 			x.id, x.key, x.stage = s.ID, s.SessionID, 1
 			byKey[x.key] = x
 			s.SetState(pppoe.StateLCPNegotiation)
